@@ -40,7 +40,7 @@ inductive SetupOutcome (S : Type) where
   /-- the C++ constructor would read memory it never wrote (row without diagonal where the code does not check):
   outside the domain of every property; the driver answers `bad-input` and the harness does not run the code -/
   | undefinedInput
-deriving Repr
+deriving Repr, DecidableEq
 
 /-- a smoother in the shape the cycle consumes -/
 structure Smoother (K : Type) (S : Type) where
